@@ -29,33 +29,179 @@ Proof.
   destruct (heap m + manual m + add <? U64) eqn:E2; [|lia]. lia.
 Qed.
 
-(* ---- guarded operations *)
-Lemma gstep_inv m o : Inv m ->
-  let '(r, m', t) := gstep m o in
-  Inv m' /\ maxb m' = maxb m /\ (r = ROk \/ m' = m) /\
-  (match o with GObj _ | GManual _ => check_first t = true | _ => True end).
+(* ---- the operations one by one *)
+Definition step_ok (m : mem) (r : res) (m' : mem) : Prop :=
+  Inv m' /\ maxb m' = maxb m /\ (r = ROk \/ m' = m).
+
+Lemma string_step m len : Inv m -> let '(r, m', t) := op_string m len in step_ok m r m'.
 Proof.
-  unfold Inv. intro HI. destruct o as [len | size | n | b | s]; cbn [gstep].
-  - unfold op_string. destruct (ensure m (SZ_STRING + len)) eqn:E.
-    + apply ensure_sound in E. cbn [add_heap heap manual maxb]. repeat split; auto; lia.
-    + repeat split; auto.
-  - unfold op_object. destruct (ensure m size) eqn:E.
-    + apply ensure_sound in E. cbn [add_heap heap manual maxb check_first]. repeat split; auto; lia.
-    + cbn [check_first]. repeat split; auto.
-  - unfold op_manual. destruct (n <? 0)%Z; [cbn [check_first]; repeat split; auto|].
-    destruct (checked_mul (Z.to_N n) SZ_VALUE) as [bytes|]; [|cbn [check_first]; repeat split; auto].
-    destruct (ensure m bytes) eqn:E; [|cbn [check_first]; repeat split; auto].
-    destruct (n =? 0)%Z; [cbn [check_first]; repeat split; auto|].
-    apply ensure_sound in E. cbn [add_manual heap manual maxb check_first]. repeat split; auto; lia.
-  - unfold op_manual_free. cbn [heap manual maxb]. repeat split; auto; lia.
-  - unfold op_sweep. cbn [heap manual maxb]. repeat split; auto; lia.
+  unfold step_ok, Inv. intro HI. unfold op_string. destruct (ensure m (SZ_STRING + len)) eqn:E.
+  - apply ensure_sound in E. cbn [add_heap heap manual maxb]. repeat split; auto; lia.
+  - repeat split; auto.
 Qed.
 
-Lemma grun_inv h : forall m, Inv m -> Inv (grun m h) /\ maxb (grun m h) = maxb m.
+Lemma object_step m size : Inv m -> let '(r, m', t) := op_object m size in step_ok m r m' /\ check_first t = true.
 Proof.
-  induction h as [|o r IH]; intros m HI; cbn [grun]; [split; auto|].
-  pose proof (gstep_inv m o HI) as H. destruct (gstep m o) as [[rr m'] t]. cbn [fst snd].
-  destruct H as (HI' & Hmax & _ & _). destruct (IH m' HI') as [A B]. split; [exact A | congruence].
+  unfold step_ok, Inv. intro HI. unfold op_object. destruct (ensure m size) eqn:E.
+  - apply ensure_sound in E. cbn [add_heap heap manual maxb check_first]. repeat split; auto; lia.
+  - cbn [check_first]. repeat split; auto.
+Qed.
+
+Lemma manual_step m n : Inv m -> let '(r, m', t) := op_manual m n in step_ok m r m' /\ check_first t = true.
+Proof.
+  unfold step_ok, Inv. intro HI. unfold op_manual. destruct (n <? 0)%Z; [cbn [check_first]; repeat split; auto|].
+  destruct (checked_mul (Z.to_N n) SZ_VALUE) as [bytes|]; [|cbn [check_first]; repeat split; auto].
+  destruct (ensure m bytes) eqn:E; [|cbn [check_first]; repeat split; auto].
+  destruct (n =? 0)%Z; [cbn [check_first]; repeat split; auto|].
+  apply ensure_sound in E. cbn [add_manual heap manual maxb check_first]. repeat split; auto; lia.
+Qed.
+
+(* array constructors: validated and checked before anything is built *)
+Lemma array_step cap e m n : Inv m ->
+  let '(r, m', t) := op_array cap e m n in
+  step_ok m r m' /\ check_first t = true /\ ((n < 0)%Z -> r = RTypeErr /\ t = []) /\
+  (r = ROom \/ r = RTypeErr -> host_total t = 0).
+Proof.
+  unfold step_ok, Inv. intro HI. unfold op_array.
+  destruct (n <? 0)%Z eqn:En; [cbn; repeat split; auto; intros; lia|].
+  destruct (U64 <=? SZ_ARRAY + Z.to_N n * e); [cbn; repeat split; auto; intros; lia|].
+  destruct (ensure m (SZ_ARRAY + Z.to_N n * e)) eqn:E.
+  - apply ensure_sound in E. destruct (host_ok cap (Z.to_N n * e)); cbn [add_heap heap manual maxb check_first host_total];
+      repeat split; auto; intros; try lia; try (destruct H; discriminate).
+  - cbn. repeat split; auto; intros; lia.
+Qed.
+
+(* vec growth: checked, performed, accounted -- the charge follows the capacity *)
+Lemma vec_grow_step cap m v add : Inv m -> vcharged v = vec_bytes v -> vlen v <= vcap v ->
+  let '(r, m', v', t) := vec_grow cap m v add in
+  step_ok m r m' /\ check_first t = true /\ vcharged v' = vec_bytes v' /\ vlen v' = vlen v /\ vcap v <= vcap v' /\
+  held m' + vec_bytes v = held m + vec_bytes v' /\
+  (r = ROk -> vlen v + add <= vcap v') /\ (r <> ROk -> v' = v /\ m' = m).
+Proof.
+  unfold step_ok, Inv, held. intros HI Hc Hlc. unfold vec_grow.
+  destruct (add <=? vcap v - vlen v) eqn:E0; [cbn; repeat split; auto; intros; try lia; congruence|].
+  destruct (USIZE_MAX <? vlen v + add); [cbn; repeat split; auto; intros; try lia; discriminate|].
+  set (required := vlen v + add). set (amort := N.max required (N.max (2 * vcap v) 4)).
+  assert (Hfin : forall nc, vcap v <= nc -> required <= nc -> ensure m ((nc - vcap v) * SZ_VALUE) = true ->
+    let '(r, m', v', t) :=
+      (if host_ok cap (nc * SZ_VALUE)
+       then (ROk, add_heap m ((nc - vcap v) * SZ_VALUE), mkVec (vlen v) nc (vcharged v + (nc - vcap v) * SZ_VALUE),
+             [ECheck ((nc - vcap v) * SZ_VALUE) true; EHost (nc * SZ_VALUE); ECharge ((nc - vcap v) * SZ_VALUE)])
+       else (RAbort, m, v, [ECheck ((nc - vcap v) * SZ_VALUE) true; EHost (nc * SZ_VALUE)])) in
+    (heap m' + manual m' <= maxb m' /\ maxb m' = maxb m /\ (r = ROk \/ m' = m)) /\ check_first t = true /\
+    vcharged v' = vec_bytes v' /\ vlen v' = vlen v /\ vcap v <= vcap v' /\
+    heap m' + manual m' + vec_bytes v = heap m + manual m + vec_bytes v' /\
+    (r = ROk -> vlen v + add <= vcap v') /\ (r <> ROk -> v' = v /\ m' = m)).
+  { intros nc Hnc Hreq En. apply ensure_sound in En. unfold vec_bytes in *.
+    destruct (host_ok cap (nc * SZ_VALUE)); cbn [add_heap heap manual maxb check_first vcharged vcap vlen];
+      repeat split; auto; intros; try lia; try congruence. }
+  destruct ((amort - vcap v) * SZ_VALUE <? U64) eqn:Eb; cbn [andb].
+  - destruct (ensure m ((amort - vcap v) * SZ_VALUE)) eqn:Ea.
+    + apply Hfin; [unfold amort; lia | unfold amort; lia | exact Ea].
+    + destruct (U64 <=? (required - vcap v) * SZ_VALUE); [cbn; repeat split; auto; intros; try lia; discriminate|].
+      destruct (ensure m ((required - vcap v) * SZ_VALUE)) eqn:Er.
+      * apply Hfin; [unfold required; lia | lia | exact Er].
+      * cbn; repeat split; auto; intros; try lia; discriminate.
+  - destruct (U64 <=? (required - vcap v) * SZ_VALUE); [cbn; repeat split; auto; intros; try lia; discriminate|].
+    destruct (ensure m ((required - vcap v) * SZ_VALUE)) eqn:Er.
+    + apply Hfin; [unfold required; lia | lia | exact Er].
+    + cbn; repeat split; auto; intros; try lia; discriminate.
+Qed.
+
+Lemma vec_push_step cap m v : Inv m -> vcharged v = vec_bytes v -> vlen v <= vcap v ->
+  let '(r, m', v', t) := op_vec_push cap m v in
+  step_ok m r m' /\ check_first t = true /\ vcharged v' = vec_bytes v' /\
+  held m' + vec_bytes v = held m + vec_bytes v' /\
+  (r = ROk -> vlen v' = vlen v + 1 /\ vlen v' <= vcap v') /\ (r <> ROk -> v' = v /\ m' = m).
+Proof.
+  intros HI Hc Hlc. unfold op_vec_push. pose proof (vec_grow_step cap m v 1 HI Hc Hlc) as H.
+  destruct (vec_grow cap m v 1) as [[[r m'] v'] t]. destruct H as (A & B & C & D & E & F & G & K).
+  unfold step_ok in *. destruct A as (A1 & A2 & A3).
+  destruct r; try (repeat split; auto; intros; try discriminate; apply K; discriminate).
+  specialize (G eq_refl). unfold vec_bytes in *. cbn [vcharged vcap vlen].
+  repeat split; auto; intros; try lia; congruence.
+Qed.
+
+Lemma vec_reserve_step cap m v a : Inv m -> vcharged v = vec_bytes v -> vlen v <= vcap v ->
+  let '(r, m', v', t) := op_vec_reserve cap m v a in
+  step_ok m r m' /\ check_first t = true /\ vcharged v' = vec_bytes v' /\
+  held m' + vec_bytes v = held m + vec_bytes v' /\
+  ((a < 0)%Z -> r = RTypeErr) /\ (r <> ROk -> v' = v /\ m' = m).
+Proof.
+  intros HI Hc Hlc. unfold op_vec_reserve. destruct (a <? 0)%Z eqn:Ea.
+  - unfold step_ok. cbn. repeat split; auto; intros; try lia.
+  - pose proof (vec_grow_step cap m v (Z.to_N a) HI Hc Hlc) as H.
+    destruct (vec_grow cap m v (Z.to_N a)) as [[[r m'] v'] t]. destruct H as (A & B & C & D & E & F & G & K).
+    unfold step_ok in *. destruct A as (A1 & A2 & A3).
+    repeat split; auto; intros; try lia; apply K; assumption.
+Qed.
+
+Lemma repeat_step cap m sl n : Inv m ->
+  let '(r, m', t) := op_repeat cap m sl n in
+  step_ok m r m' /\ ((0 < n)%Z -> check_first t = true /\ (r = ROom -> host_total t = 0)).
+Proof.
+  unfold step_ok, Inv. intro HI. unfold op_repeat.
+  destruct (n <=? 0)%Z eqn:En.
+  - pose proof (string_step m 0 HI) as H. destruct (op_string m 0) as [[r m'] t]. split; [exact H | intros; lia].
+  - destruct (ISIZE_MAX <? sl * Z.to_N n); [cbn; repeat split; auto|].
+    destruct (ensure m (SZ_STRING + sl * Z.to_N n)) eqn:E.
+    + apply ensure_sound in E. destruct (host_ok cap (sl * Z.to_N n)); cbn [add_heap heap manual maxb check_first host_total];
+        repeat split; auto; intros; try lia; discriminate.
+    + cbn. repeat split; auto.
+Qed.
+
+Lemma pad_step cap m sl w : Inv m ->
+  let '(r, m', t) := op_pad cap m sl w in
+  step_ok m r m' /\ check_first t = true /\ (r = ROom -> host_total t = 0).
+Proof.
+  unfold step_ok, Inv. intro HI. unfold op_pad.
+  destruct ((w <=? 0)%Z || (Z.to_N w <=? sl)); [cbn; repeat split; auto|].
+  destruct (ISIZE_MAX <? Z.to_N w); [cbn; repeat split; auto|].
+  destruct (ensure m (SZ_STRING + Z.to_N w)) eqn:E.
+  - apply ensure_sound in E. destruct (host_ok cap (3 * Z.to_N w)); cbn [add_heap heap manual maxb check_first host_total];
+      repeat split; auto; intros; try lia; discriminate.
+  - cbn. repeat split; auto.
+Qed.
+
+Lemma bytes_step cap m n : Inv m -> let '(r, m', t) := op_bytes cap m n in step_ok m r m' /\ m' = m.
+Proof.
+  unfold step_ok. intro HI. unfold op_bytes.
+  destruct (n <=? 0)%Z; [repeat split; auto|]. destruct (MAX_ALLOC <? Z.to_N n); [repeat split; auto|].
+  destruct (host_ok cap (Z.to_N n)); repeat split; auto.
+Qed.
+
+(* ---- every allocating primitive, in every history *)
+Lemma gstep_inv cap m o : Inv m ->
+  (match o with GVecPush v | GVecReserve v _ => vcharged v = vec_bytes v /\ vlen v <= vcap v | _ => True end) ->
+  let '(r, m', t) := gstep cap m o in
+  Inv m' /\ maxb m' = maxb m /\ (r = ROk \/ m' = m) /\
+  (match o with GStr _ | GBytes _ | GManualFree _ | GSweep _ => True | GRepeat _ n => (0 < n)%Z -> check_first t = true
+              | _ => check_first t = true end).
+Proof.
+  intros HI Hv. destruct o as [len | size | n | b | sz | e n | v | v a | sl n | sl w | n]; cbn [gstep].
+  - pose proof (string_step m len HI) as H. destruct (op_string m len) as [[r m'] t]. destruct H as (A & B & C). auto.
+  - pose proof (object_step m size HI) as H. destruct (op_object m size) as [[r m'] t]. destruct H as ((A & B & C) & D). auto.
+  - pose proof (manual_step m n HI) as H. destruct (op_manual m n) as [[r m'] t]. destruct H as ((A & B & C) & D). auto.
+  - unfold Inv in *. unfold op_manual_free. cbn [heap manual maxb]. repeat split; auto; lia.
+  - unfold Inv in *. unfold op_sweep. cbn [heap manual maxb]. repeat split; auto; lia.
+  - pose proof (array_step cap e m n HI) as H. destruct (op_array cap e m n) as [[r m'] t]. destruct H as ((A & B & C) & D & _). auto.
+  - destruct Hv as [Hv Hl]. pose proof (vec_push_step cap m v HI Hv Hl) as H. destruct (op_vec_push cap m v) as [[[r m'] v'] t]. destruct H as ((A & B & C) & D & _). auto.
+  - destruct Hv as [Hv Hl]. pose proof (vec_reserve_step cap m v a HI Hv Hl) as H. destruct (op_vec_reserve cap m v a) as [[[r m'] v'] t]. destruct H as ((A & B & C) & D & _). auto.
+  - pose proof (repeat_step cap m sl n HI) as H. destruct (op_repeat cap m sl n) as [[r m'] t]. destruct H as ((A & B & C) & D).
+    repeat split; auto. intro Hn. apply D; assumption.
+  - pose proof (pad_step cap m sl w HI) as H. destruct (op_pad cap m sl w) as [[r m'] t]. destruct H as ((A & B & C) & D & _). auto.
+  - pose proof (bytes_step cap m n HI) as H. destruct (op_bytes cap m n) as [[r m'] t]. destruct H as ((A & B & C) & D). auto.
+Qed.
+
+Definition vec_ok (o : gop) : Prop :=
+  match o with GVecPush v | GVecReserve v _ => vcharged v = vec_bytes v /\ vlen v <= vcap v | _ => True end.
+
+Lemma grun_inv cap h : forall m, Inv m -> Forall vec_ok h -> Inv (grun cap m h) /\ maxb (grun cap m h) = maxb m.
+Proof.
+  induction h as [|o r IH]; intros m HI Hv; cbn [grun]; [split; auto|].
+  inversion Hv as [|x l Hx Hl]; subst.
+  pose proof (gstep_inv cap m o HI Hx) as H. destruct (gstep cap m o) as [[rr m'] t]. cbn [fst snd].
+  destruct H as (HI' & Hmax & _ & _). destruct (IH m' HI' Hl) as [A B]. split; [exact A | congruence].
 Qed.
 
 (* the manual allocator, completely: what it answers and when *)
@@ -88,9 +234,14 @@ Proof. intro H. unfold op_sweep; cbn [heap manual]. split; reflexivity. Qed.
 Lemma sweep_keeps_inv m cur : Inv m -> Inv (op_sweep m cur).
 Proof. unfold Inv, op_sweep; cbn [heap manual maxb]. lia. Qed.
 
-(* a vec charged 40 bytes at creation and grown to capacity 1024 is swept as 32 + 8192 bytes: 8184 bytes
-   that belong to OTHER live objects disappear from the budget *)
-Lemma sweep_grown_witness :
+(* a vec is swept at exactly what it has been charged, however much it has grown *)
+Lemma sweep_vec_exact m v : vcharged v = vec_bytes v -> vcharged v <= heap m ->
+  heap (op_sweep m (vec_bytes v)) = heap m - vcharged v.
+Proof. intros Hc Hle. unfold op_sweep; cbn [heap]. rewrite Hc. reflexivity. Qed.
+
+(* OLD behaviour (growth not accounted): a vec charged 40 bytes at creation and grown to capacity 1024 was swept as
+   32 + 8192 bytes: 8184 bytes that belong to OTHER live objects disappeared from the budget *)
+Lemma old_sweep_grown_witness :
   let m := mkMem 100040 0 1048576 in
   let v := mkVec 1024 1024 40 in
   heap (op_sweep m (vec_bytes v)) = 91816 /\ heap m - vcharged v = 100000.
@@ -110,57 +261,27 @@ Proof.
   destruct (host_ok cap (Z.to_N n)); cbn [snd fst host_total]; split; try reflexivity; lia.
 Qed.
 
-(* ---- witnesses for the unguarded paths (limit 1 MiB, 100 000 bytes in use, host grants up to 2^40) *)
+(* ---- the former counterexamples on the repaired definitions (limit 1 MiB, 100 000 bytes in use, host grants 2^40) *)
 Definition w_mem : mem := mkMem 100000 0 1048576.
 Definition w_cap : N := 1099511627776.
 
-Lemma array_late_check_witness :
-  op_array w_cap 8 w_mem 200000 = (ROom, w_mem, [EHost 1600000; ECheck 1600024 false]) /\
-  check_first (snd (op_array w_cap 8 w_mem 200000)) = false /\
-  op_array w_cap 8 w_mem (-1) = (RPanic, w_mem, []) /\
-  op_array w_cap 8 w_mem 1000000000000 = (RAbort, w_mem, [EHost 8000000000000]).
+Lemma repaired_array_witness :
+  op_array w_cap 8 w_mem 200000 = (ROom, w_mem, [ECheck 1600024 false]) /\
+  op_array w_cap 8 w_mem (-1) = (RTypeErr, w_mem, []) /\
+  op_array w_cap 8 w_mem 1000000000000 = (ROom, w_mem, [ECheck 8000000000024 false]).
 Proof. vm_compute. repeat split; reflexivity. Qed.
 
-Lemma vec_growth_witness :
-  let '(r, m', v') := push_many 2000 w_cap w_mem (mkVec 1 1 40) in
-  r = ROk /\ m' = w_mem /\ vlen v' = 2001 /\ vcap v' = 2048.
+Lemma repaired_vec_witness :
+  (let '(r, m', v') := push_many 2000 w_cap w_mem (mkVec 1 1 40) in
+   r = ROk /\ vlen v' = 2001 /\ vcap v' = 2048 /\ vcharged v' = vec_bytes v' /\ held m' = held w_mem + 2047 * 8) /\
+  (let '(r, m', v', _) := op_vec_reserve w_cap w_mem (mkVec 1 1 40) 131072 in r = ROom /\ m' = w_mem) /\
+  fst (fst (fst (op_vec_reserve w_cap w_mem (mkVec 1 1 40) (-1)))) = RTypeErr /\
+  fst (fst (fst (op_vec_reserve w_cap w_mem (mkVec 1 1 40) 1000000000000))) = ROom.
 Proof. vm_compute. repeat split; reflexivity. Qed.
 
-(* doubling 17 times from capacity 1: 131072 elements = 1 MiB of storage, nothing charged, no error *)
-Lemma vec_growth_over_limit_witness :
-  let '(r, m', v', _) := op_vec_reserve w_cap w_mem (mkVec 1 1 40) 131072 in
-  r = ROk /\ m' = w_mem /\ maxb w_mem < held w_mem - vcharged v' + vec_bytes v'.
+Lemma repaired_string_witness :
+  op_repeat w_cap w_mem 16 100000 = (ROom, w_mem, [ECheck 1600024 false]) /\
+  fst (fst (op_repeat w_cap w_mem 16 100000000000)) = ROom /\
+  op_pad w_cap w_mem 16 (-1) = (ROk, w_mem, []) /\
+  op_pad w_cap w_mem 16 100000000000000 = (ROom, w_mem, [ECheck 100000000000024 false]).
 Proof. vm_compute. repeat split; reflexivity. Qed.
-
-Lemma vec_reserve_witness :
-  fst (fst (fst (op_vec_reserve w_cap w_mem (mkVec 1 1 40) (-1)))) = RPanic /\
-  fst (fst (fst (op_vec_reserve w_cap w_mem (mkVec 1 1 40) 1000000000000))) = RAbort.
-Proof. vm_compute. split; reflexivity. Qed.
-
-Lemma repeat_late_check_witness :
-  op_repeat w_cap w_mem 16 100000 = (ROom, w_mem, [EHost 1600000; ECheck 1600024 false]) /\
-  fst (fst (op_repeat w_cap w_mem 16 100000000000)) = RAbort /\
-  fst (fst (op_pad true w_cap w_mem 16 (-1))) = RPanic /\
-  fst (fst (op_pad true w_cap w_mem 16 100000000000000)) = RAbort.
-Proof. vm_compute. repeat split; reflexivity. Qed.
-
-(* the strongest true statement for the late-checked primitives: when they answer Ok the invariant still
-   holds (the charge itself is checked), only the order / the host request is wrong *)
-Lemma array_ok_inv cap e m n : Inv m -> let '(r, m', _) := op_array cap e m n in Inv m' /\ (r = ROk \/ m' = m).
-Proof.
-  unfold Inv. intro HI. unfold op_array.
-  destruct (ISIZE_MAX <? usize_of n * e); [split; auto|].
-  destruct (negb (host_ok cap (usize_of n * e))); [split; auto|].
-  destruct (ensure m (SZ_ARRAY + usize_of n * e)) eqn:E; [|split; auto].
-  apply ensure_sound in E. cbn [add_heap heap manual maxb]. split; [lia | auto].
-Qed.
-Lemma repeat_ok_inv cap m sl n : Inv m -> let '(r, m', _) := op_repeat cap m sl n in Inv m' /\ (r = ROk \/ m' = m).
-Proof.
-  unfold Inv. intro HI. unfold op_repeat, op_string.
-  destruct (n <=? 0)%Z.
-  - destruct (ensure m (SZ_STRING + 0)) eqn:E; [|split; auto]. apply ensure_sound in E. cbn [add_heap heap manual maxb]. split; [lia|auto].
-  - destruct (ISIZE_MAX <? sl * usize_of n); [split; auto|].
-    destruct (negb (host_ok cap (sl * usize_of n))); [split; auto|].
-    destruct (ensure m (SZ_STRING + sl * usize_of n)) eqn:E; [|split; auto].
-    apply ensure_sound in E. cbn [add_heap heap manual maxb]. split; [lia | auto].
-Qed.
